@@ -757,6 +757,15 @@ def store_tie_impl(ctx, r):
                 exprs.append('map Z.of_nat (concat (store_signature %s c15_%s %s))' % (wflag, name, wr))
                 obs.append(written + rets)
                 labels.append('%s, %s, %s arrays' % (name, how, akind))
+                # the same object passed for two parameters (first and second array argument are ONE object)
+                args = [as_kind([[r.uniform(0.5, 2.0) for _ in range(2)] for _ in range(5)], akind) for _ in range(3)]
+                copies = [onp.array(a, copy=True) for a in args]
+                out = fobj(args[0], args[0], args[2], 0.37)
+                written = [0 if onp.array_equal(onp.asarray(a), c) else 1 for a, c in zip(args, copies)] + [0]
+                rets = [next((i + 1 for i, a in enumerate(args) if o is a), 0) for o in out]
+                exprs.append('map Z.of_nat (concat (store_signature_at %s c15_%s %s [0; 0; 2; 3]%%nat))' % (wflag, name, wr))
+                obs.append(written + rets)
+                labels.append('%s, %s, %s arrays, first two arguments the same object' % (name, how, akind))
     return exprs, obs, labels
 
 
